@@ -32,6 +32,22 @@ def gen(rng, tier):
         yield dict(kind="g1", horizon=h, forms=["arc", "path", "seq"] if h <= 20 else ["arc", "path"])
     for _ in range(3 if tier == "quick" else 20):
         yield dict(kind="mirp", spec=small_mirp(rng), strict=rng.random() < 0.5)
+    # formulations built directly from a VRPTW with interchangeable customers (equal costs: every choice the heuristics make is a tie),
+    # made feasible by the caller: the result must not depend on the generator state either
+    for i in range(2 if tier == "quick" else 8):
+        n = rng.randint(2, 3)
+        names = [f"c{j}" for j in range(n)]
+        t = fs(Fraction(rng.choice([1, 2])))
+        spec = dict(nodes=[dict(name="D", demand="0", lo="0", hi="inf")] + [dict(name=x, demand="1", lo="0", hi="inf") for x in names],
+                    arcs=[["D", x, t, "1"] for x in names] + [[x, "D", t, "1"] for x in names] +
+                         [[x, y, t, "1"] for x in names for y in names if x != y and rng.random() < 0.8],
+                    cap=fs(Fraction(rng.choice([1, 2, n]))), init=fs(Fraction(rng.choice([1, 2, n]))))
+        if Fraction(spec["init"]) > Fraction(spec["cap"]):
+            spec["init"] = spec["cap"]
+        yield dict(kind="direct", high=rng.choice(["10", "100"]), forms=["arc", "path", "seq"],
+                   cases=dict(arc=dict(form="arc", spec=spec, grid=[fs(Fraction(k)) for k in range(0, 2 * n * int(Fraction(t)) + 2)], seed=1),
+                              path=dict(form="path", spec=spec, routes=[], seed=1),
+                              seq=dict(form="seq", spec=spec, strict=False, V=rng.choice([1, 2]), L=n + 2, seed=1)))
     # explicit seeds incl. the boundary value 0 (a falsy seed must still be honoured)
     for sd in [0, rng.randrange(1, 10 ** 4)] + ([rng.randrange(10 ** 4) for _ in range(10)] if tier != "quick" else []):
         yield dict(kind="random", seed=sd, ns=1, nd=rng.randint(1, 2), horizon=rng.choice([25, 30]), forms=["arc", "path"])
@@ -66,6 +82,9 @@ def run_case(case, drv):
                                                    f"{configs[0][1]} prior draws and one with PYTHONHASHSEED={hs}, {draws} prior draws")
                 break
     res.features += [f"{k}:{'raise' if str(v).startswith('raise') else 'ok'}" for k, v in base.items() if k != "instance"]
+    if case["kind"] == "direct":
+        res.nontrivial = any(str(v).startswith("ok") for v in base.values())
+        return res
     # in-process: build twice, compare
     import numpy as np
     from .props_common import light_state
